@@ -59,11 +59,14 @@ def module_index(items):
     return [it for it in items if it.kind == 'struct']
 
 
-def find_structs(items, name, allowed=None):
-    """structs whose name equals `name` under every alternative (structure must not depend on symbols)"""
+def find_structs(items, name, allowed=None, module=None):
+    """structs whose name equals `name` under every alternative (structure must not depend on symbols); module: only
+    structs emitted inside that Rust module (two namespaces may both define a type of this name)"""
     out = []
     for it in items:
         if it.kind != 'struct':
+            continue
+        if module is not None and one(it.module) != module:
             continue
         eq = sym_eq(it.name, name, allowed)
         if eq is True:
@@ -129,11 +132,11 @@ def attr_get(attrs, key):
     return smap(f, attrs)
 
 
-def check_struct_members(env, items, sch, ct, struct_name, mod_of_prefix, base_fields=None, prefix_of_ns=None, tag=''):
+def check_struct_members(env, items, sch, ct, struct_name, mod_of_prefix, base_fields=None, prefix_of_ns=None, tag='', module=None):
     """C02/C03/C08 obligations for one complex type. Returns list[Check]."""
     out = []
     name = env.map(pascal, struct_name)
-    cands = find_structs(items, name, env.allowed)
+    cands = find_structs(items, name, env.allowed, module)
     n = len(cands)
     out.append(Check('struct-exactly-once', 'exactly one struct for %s%s (found %d)' % (one(struct_name), tag, n), n == 1))
     if n != 1:
